@@ -21,8 +21,20 @@ theorem tie_mapReduceShape : mapReduceShape =
 
 /-- MapReduceVoid: the reducer gets no writer; ErrReduceNoOutput becomes nil (driver: `ok`). -/
 theorem tie_mapReduceVoidShape : mapReduceVoidShape =
-    ["func{", "call reducer", "}", "call MapReduce", "if errors.Is(err, ErrReduceNoOutput) {", "return", "}",
-    "return"] := by decide
+    ["func{", "call markCancel", "call mapper", "}", "func{", "call markCancel", "call reducer", "}", "call MapReduce",
+    "if ok {", "return", "}", "if errors.Is(err, ErrReduceNoOutput) {", "return", "}", "return"] := by decide
+
+/-- round 5 (fix C10-void-cancel-sentinel): BOTH user functions of MapReduceVoid get the marking cancel — item and
+writer are forwarded unchanged. -/
+theorem tie_mapReduceVoidMapperArgs : mapReduceVoidMapperArgs = ["item, writer, markCancel(cancel)"] := by decide
+theorem tie_mapReduceVoidReducerArgs : mapReduceVoidReducerArgs = ["input, markCancel(cancel)"] := by decide
+theorem tie_markCancelShape : markCancelShape =
+    ["func{", "if err != nil {", "}", "call cancel", "}", "return"] := by decide
+
+/-- `markCancel`: a non-nil error is marked, nil is passed on unmarked (`Spec5.markCancelArgM`), for all errors. -/
+theorem tie_markCancelArg (err : Option Nat) :
+    GoZero.Extracted.C10.markCancelArg err = GoZero.C10.markCancelArgM err := by
+  cases err <;> rfl
 
 /-- ForEach: dispatcher goroutine + the caller loop `select {panicChan → panic; collector closed → repanic, return}`. -/
 theorem tie_forEachShape : forEachShape =
@@ -229,7 +241,7 @@ theorem tie_mapReduceChanForwardArgs : mapReduceChanForwardArgs =
 
 /-- MapReduceVoid forwards generate, mapper, its wrapper reducer and ALL options. -/
 theorem tie_mapReduceVoidForwardArgs : mapReduceVoidForwardArgs =
-    ["generate, mapper, func, opts..."] := by decide
+    ["generate, func, func, opts..."] := by decide
 
 /-- the reducer reads the collector, writes through the guarded writer, gets the once-cancel. -/
 theorem tie_reducerCallArgs : reducerCallArgs =
@@ -313,8 +325,18 @@ theorem tie_callerCtxCase : GoZero.Extracted.C10.callerCtxCase =
     (some (GoZero.C10.encErr .deadline), some (GoZero.C10.encErr .deadline)) := by decide
 
 /-- MapReduceVoid maps ErrReduceNoOutput (and only it) to nil (`Spec.voidReturn`, driver `showRes`). -/
-theorem tie_voidReturn (err : Option Nat) : GoZero.Extracted.C10.voidReturn err = GoZero.C10.voidReturn err := by
-  cases err <;> rfl
+theorem tie_errorsIs_noOutput (err : Option Nat) :
+    GoZero.Extracted.C10.errorsIs err (some GoZero.Extracted.C10.errReduceNoOutput) = GoZero.C10.isNoOutput err := by
+  simp [GoZero.Extracted.C10.errorsIs, GoZero.C10.isNoOutput, GoZero.C10.encErr, GoZero.Extracted.C10.errReduceNoOutput,
+    Bool.or_assoc]
+
+/-- round 5: the marked error is returned as it is, THEN `errors.Is(err, ErrReduceNoOutput)` ↦ nil, for all errors and
+both values of the mark (`Spec5.voidReturnNow`; `errors.Is` also matches a user error that is / wraps the sentinel:
+`Spec.isNoOutput`). -/
+theorem tie_voidReturn (fromCancel : Bool) (err : Option Nat) :
+    GoZero.Extracted.C10.voidReturn fromCancel err = GoZero.C10.voidReturnNow fromCancel err := by
+  unfold GoZero.Extracted.C10.voidReturn GoZero.C10.voidReturnNow GoZero.C10.voidReturnIs
+  rw [tie_errorsIs_noOutput]
 
 /-- Finish / FinishVoid: return at once iff there is no function; pass WithWorkers(len(fns)) (`Spec.finishCfg`,
 `Spec.forEachCfg`); Finish's mapper cancels with the function's error iff it is not nil (`Spec.fnScript`). -/
